@@ -138,15 +138,36 @@ def run(pid, tier, seed, mod, args, workdir, t0):
                 else:
                     crashed = last + nworkers
                 where = [ln.strip() for ln in tail.splitlines() if ln.strip().startswith('File')]
-                crashes.append({'idx': crashed, 'status': 'error',
-                                'error': 'native crash (signal %d) in %s'
-                                % (-p.returncode, (where[0] if where else '?')[:120])})
+                rec = {'idx': crashed, 'status': 'error',
+                       'error': 'native crash (signal %d) in %s'
+                       % (-p.returncode, (where[0] if where else '?')[:120])}
+                in_rsome = [ln for ln in where if (os.sep + 'rsome' + os.sep) in ln
+                            and 'site-packages' not in ln]
+                if getattr(mod, 'CRASH_IS_VIOLATION', False) and -p.returncode in (4, 6, 7, 8, 11) \
+                        and in_rsome:
+                    # the process died inside a call made by one of RSOME's solver interfaces:
+                    # for this property that is the finding (the case is regenerated for replay)
+                    import numpy as _np
+                    try:
+                        spec_ = mod.gen_case(_np.random.default_rng([seed, int(pid[1:]), crashed]),
+                                             crashed, tier)
+                    except Exception:
+                        spec_ = None
+                    fn_ = in_rsome[0].split('"')[1] if '"' in in_rsome[0] else in_rsome[0]
+                    rec = {'idx': crashed, 'status': 'violation', 'nontrivial': True,
+                           'mechanism': 'native_crash:' + os.path.basename(fn_),
+                           'sig': 'native_crash', 'spec': spec_,
+                           'detail': {'what': 'the interpreter was killed by signal %d inside a '
+                                      'solver call made by RSOME' % -p.returncode,
+                                      'frames': where[:6]}}
+                crashes.append(rec)
                 if crashed + nworkers < ncases:
                     running[w] = launch(w, crashed, gen + 1)
             else:
                 problems.append('worker %d exited with %s: %s' % (w, p.returncode, tail[-1200:]))
-    if len(crashes) > max(3, 0.02 * ncases):
-        problems.append('%d native crashes' % len(crashes))
+    nerr_crash = len([c for c in crashes if c.get('status') == 'error'])
+    if nerr_crash > max(3, 0.02 * ncases):
+        problems.append('%d native crashes' % nerr_crash)
     with open(os.path.join(workdir, 'crashes.jsonl'), 'w') as f_:
         for c in crashes:
             f_.write(json.dumps(c) + '\n')
